@@ -32,7 +32,7 @@ from .. import tlc
 
 LANGS = ("c", "cpp", "py", "html")
 PKG = "c16pkg"
-ALL_INV = ("RefNearest", "RefSource", "RefHistory", "CacheSound", "BfsIsNearest")
+ALL_INV = ("RefNearest", "RefSource", "RefHistory", "CacheSound", "BfsIsNearest", "NameRefines")
 
 
 def cps(s):
@@ -205,6 +205,30 @@ class Realizer:
         for t, fn, txt in layout["files"]:
             (dirs[t] / fn).write_text(txt)
         return dirs
+
+    def name_user(self, files):
+        """a user directory holding exactly these relative file names (any suffix, sub-directories allowed)"""
+        key = ("nu", frozenset(files))
+        if key not in self._u:
+            p = self.root / ("nu%d" % len(self._u))
+            for f in sorted(files):
+                (p / f).parent.mkdir(parents=True, exist_ok=True)
+                (p / f).write_text(name_text("U", f))
+            p.mkdir(exist_ok=True)
+            self._u[key] = p
+        return self._u[key]
+
+    def name_builtin(self, files):
+        key = ("nb", frozenset(files))
+        if key not in self._b:
+            d = "nb%d" % len(self._b)
+            p = self.root / "pk" / PKG / d
+            for f in sorted(files):
+                (p / f).parent.mkdir(parents=True, exist_ok=True)
+                (p / f).write_text(name_text("B", f))
+            p.mkdir(exist_ok=True)
+            self._b[key] = d
+        return self._b[key]
 
     def drop(self, dirs):
         for d in dirs:
@@ -536,6 +560,13 @@ def report(ctx, rec, info, clause):
                 % (i, name(s["c"]), info["mode"], info["path"], hier.names(rec["user"]), hier.names(rec["builtin"]), name(s["got"]), s["src"],
                    name(s["cold"]), name(s["ref"]), [name(x["c"]) for x in rec["steps"][:i]], clause))
         ctx.violation(sig, what, info["case"])
+    elif k == "name":
+        c = info["case"]
+        sig = "C16|%s|%s|%s|%s" % (clause.split()[0], c["mode"], "j2" if c["name"].endswith(".j2") else "non-j2", "subdir" if "/" in c["name"] else "top")
+        ctx.violation(sig, "template %r requested by name (%s via %s%s, loader sets: %s; a user file of that name %s, a built-in file %s): text came from "
+                      "set %d (1 user, 2 built-in, 3 another file, 0 not found / error) [%s]"
+                      % (c["name"], c["access"], c["path"], "/" + c["lang"] if c.get("lang") else "", c["mode"], "exists" if c["inU"] else "does not exist",
+                         "exists" if c["inB"] else "does not exist", rec["src"], clause), c)
     elif k == "inst":
         parts = clause.split()
         K = int(parts[1]) if len(parts) > 1 else 0
@@ -783,6 +814,165 @@ def support_templates(ctx, R, J, GP):
                 ctx.count()
                 ctx.distinct("s|%s|%s|%s" % (lang, name, with_user))
                 n += 1
+    return n
+
+
+# ---------------------------------------------------------------------------------------------------------------------
+# part 1b: resolution BY NAME (any name: with / without the template suffix, top level / sub-directory)
+# ---------------------------------------------------------------------------------------------------------------------
+NAME_POOL = ["banner.txt", "macros.j2", "part.j2", "namespace_base.js", "inc/part.j2", "inc/banner.txt", "assets/x.css", "assets/deep/y.js",
+             "README", "Any.j2"]
+ACCESS = ("get_source", "get_template", "include", "import", "from_import")
+
+
+def name_text(tag, name):
+    """one text that serves get_source, get_template, include (renders the marker) and import (macro who() returns the marker)"""
+    return "{%% macro who() %%}%s:%s{%% endmacro %%}%s:%s" % (tag, name, tag, name)
+
+
+def includer(access, name):
+    if access == "import":
+        return '{%% import "%s" as m %%}{{ m.who() }}' % name
+    if access == "from_import":
+        return '{%% from "%s" import who %%}{{ who() }}' % name
+    return '{%% include "%s" %%}' % name
+
+
+def name_src(text, name):
+    t = text.strip()
+    if t.endswith("U:" + name):
+        return 1
+    if t.endswith("B:" + name):
+        return 2
+    if "{% macro who() %}" in t or t.startswith(("U:", "B:")):
+        return 3  # the text of another scratch file
+    return 2  # a real built-in file (the harness' user copies always carry the marker)
+
+
+def observe_name(R, GP, case):
+    """-> src (1 user text, 2 built-in text, 3 wrong text, 0 not resolvable / error)"""
+    from nunavut.jinja import CodeGenEnvironmentBuilder, SupportGenerator
+
+    name, mode, access, path, flavor = case["name"], case["mode"], case["access"], case["path"], case.get("flavor", 0)
+    ufiles = set(case["others_u"]) | ({name} if case["inU"] else set())
+    bfiles = set(case["others_b"]) | ({name} if case["inB"] else set())
+    try:
+        if path in ("loader", "environment"):
+            if case.get("real_package"):
+                pkg, bp = "nunavut.lang." + case["real_package"], "templates"
+            else:
+                pkg, bp = PKG, R.name_builtin(bfiles)
+            ld = make_loader(mode, [R.name_user(ufiles)], bp, flavor, pkg=pkg)
+            if access == "get_source":
+                return name_src(ld.get_source(None, name)[0], name)
+            env = CodeGenEnvironmentBuilder(ld, GP.lctx["c"]).create()
+            if access == "get_template":
+                return name_src(env.get_template(name).render(), name)
+            return name_src(env.from_string(includer(access, name)).render(), name)
+        lang = case["lang"]
+        if path == "DSDLCodeGenerator":
+            top = {"Any.j2": includer(access, name)}
+            if mode == "fs":
+                d = R.name_user(ufiles)
+                g = GP.gen(lang, "fs", [overlay(R, d, top)], R.name_builtin(bfiles), flavor=flavor)
+            else:
+                b = R.name_builtin(bfiles | {"Any.j2", "gen_%s.flag" % access})  # a package directory of its own
+                overlay(R, R.root / "pk" / PKG / b, top, inplace=True)
+                g = GP.gen(lang, "pkg", None, b, flavor=flavor)
+        elif path == "SupportGenerator":
+            sup = sorted(p.stem for p in (REPO / "src" / "nunavut" / "lang" / lang / "support").glob("*.j2"))[0]
+            d = overlay(R, R.name_user(ufiles), {sup + ".j2": includer(access, name)})
+            g = SupportGenerator(GP.ns[lang], support_templates_dir=[d])
+        else:
+            raise MachineryFailure("path " + path)
+        outs = [pathlib.Path(str(o)) for o in g.generate_all(False, True)]
+        txt = outs[0].read_text() if outs else ""
+        return name_src(txt, name)
+    except MachineryFailure:
+        raise
+    except Exception:  # TemplateNotFound or whatever else makes the name unusable
+        return 0
+    finally:
+        if path in ("DSDLCodeGenerator", "SupportGenerator"):
+            shutil.rmtree(str(GP.out / case["lang"]), True)
+
+
+_OVL = {}
+
+
+def overlay(R, base, extra, inplace=False):
+    """a copy of directory `base` plus the files `extra` (the including type / support template)"""
+    if inplace:
+        for fn, txt in extra.items():
+            (base / fn).write_text(txt)
+        return base
+    key = (str(base), tuple(sorted(extra.items())))
+    if key not in _OVL:
+        d = R.root / ("ov%d" % len(_OVL))
+        shutil.copytree(str(base), str(d))
+        for fn, txt in extra.items():
+            (d / fn).write_text(txt)
+        _OVL[key] = d
+    return _OVL[key]
+
+
+def name_record(J, case, src):
+    mode = case["mode"]
+    J.add({"k": "name", "inU": bool(case["inU"]), "inB": bool(case["inB"]), "fs": mode in ("fs", "both"), "pkg": mode in ("pkg", "both"), "src": src},
+          case=case)
+
+
+def by_name(ctx, R, J, GP):
+    rng = ctx.rng
+    n = 0
+
+    def others(name):
+        pool = [x for x in NAME_POOL if x != name and x != "Any.j2"]
+        return sorted(rng.sample(pool, rng.randint(0, 3))), sorted(rng.sample(pool, rng.randint(0, 3)))
+
+    def go(case):
+        nonlocal n
+        src = observe_name(R, GP, case)
+        name_record(J, case, src)
+        ctx.count()
+        ctx.distinct("n|%s|%s|%s|%s|%s|%s|%s" % (case["path"], case.get("lang"), case["mode"], case["access"], case["name"], case["inU"], case["inB"]))
+        n += 1
+        return src
+
+    # the loader directly and through an environment: every name x (in user set?, in built-in set?) x loader configuration x access
+    for rep in range(ctx.pick(1, 4)):
+        for name in NAME_POOL:
+            for inU in (True, False):
+                for inB in (True, False):
+                    for mode in ("both", "fs", "pkg"):
+                        for flavor in (0, 1):
+                            ou, ob = others(name)
+                            for access in ACCESS:
+                                go({"kind": "name", "path": "loader" if access == "get_source" else "environment", "name": name, "inU": inU, "inB": inB,
+                                    "mode": mode, "flavor": flavor, "access": access, "others_u": ou, "others_b": ob})
+    # real built-in files of the html template set (namespace_base.js, assets/*, helper templates), with and without a user copy
+    real = REPO / "src" / "nunavut" / "lang" / "html" / "templates"
+    rnames = sorted(str(p.relative_to(real)) for p in real.rglob("*") if p.is_file() and p.suffix not in (".py", ".pyc") and "__pycache__" not in p.parts)
+    for name in rnames:
+        for inU in (True, False):
+            for mode, flavor in (("both", 0), ("pkg", 0), ("pkg", 1)):
+                go({"kind": "name", "path": "loader", "name": name, "inU": inU, "inB": True, "mode": mode, "flavor": flavor, "access": "get_source",
+                    "others_u": [], "others_b": [], "real_package": "html"})
+    # the public generators: a type / support template that includes or imports the name
+    gnames = ["banner.txt", "part.j2", "inc/part.j2", "assets/x.css"]
+    for i, name in enumerate(gnames):
+        for inU in (True, False):
+            for access in ("include", "import"):
+                lang = ("c", "cpp")[i % 2]
+                for inB in (False, True):
+                    go({"kind": "name", "path": "DSDLCodeGenerator", "lang": lang, "name": name, "inU": inU, "inB": inB, "mode": "fs", "flavor": 3 * i,
+                        "access": access, "others_u": [], "others_b": []})
+                go({"kind": "name", "path": "DSDLCodeGenerator", "lang": lang, "name": name, "inU": False, "inB": inU, "mode": "pkg", "flavor": i,
+                    "access": access, "others_u": [], "others_b": []})
+                for slang in ctx.pick((("c", "py")[i % 2],), ("c", "cpp", "py")):
+                    go({"kind": "name", "path": "SupportGenerator", "lang": slang, "name": name, "inU": inU, "inB": False, "mode": "both", "flavor": 0,
+                        "access": access, "others_u": [], "others_b": []})
+    ctx.cov["by_name"] = {"requests": n, "names": NAME_POOL, "real_html_builtins": rnames, "access": list(ACCESS)}
     return n
 
 
@@ -1238,6 +1428,7 @@ def run(ctx):
     lap("random histories on the pydsdl hierarchy")
     ngen = generator_histories(ctx, R, J, H, GP, ctx.pick(240, 2400))
     nsup = support_templates(ctx, R, J, GP)
+    by_name(ctx, R, J, GP)
     lap("generator paths")
     # 3. instance tests, 4. environment additions
     tested = instance_tests(ctx, J, H, GP)
@@ -1271,7 +1462,8 @@ def run(ctx):
         "templates directly inside a templates directory (templates in sub-directories are not part of the statement)",
         "the set a loader object has no loader for (package under FIND_FIRST with directories; directories when none are given) is invisible",
     ]
-    ctx.not_exercised("user templates in sub-directories of a templates directory (stem collisions between sub-directories)")
+    ctx.not_exercised("CLASS-named user templates in sub-directories of a templates directory (stem collisions between sub-directories); "
+                      "by-name requests into sub-directories are exercised")
 
 
 # ---------------------------------------------------------------------------------------------------------------------
@@ -1323,6 +1515,9 @@ def replay(ctx, case):
                     steps.append({"c": H.id[type(v)], "got": got, "cold": cold, "ref": ref, "src": src})
             path = "DSDLCodeGenerator/" + case["lang"]
         J.add(hist_record(0, H, user, builtin, mode, steps), hier=H, mode=mode, path=path, case=case)
+    elif kind == "name":
+        GP = GenPath(ctx, Fixture(ctx))
+        name_record(J, case, observe_name(R, GP, case))
     elif kind == "support":
         fx = Fixture(ctx)
         GP = GenPath(ctx, fx)
